@@ -240,7 +240,7 @@ def run_one(desc: dict, controller: "Recorder | None" = None) -> dict:
                 op = 0
             beh = desc["ops"][op - 1] if 1 <= op <= nops else "ok"
             if beh == "bad":
-                status, bad = 500, True
+                status, bad = (502 if rec.phase == 4 else 500), True     # a different failure in the fuzzing phase
             elif beh == "badif":
                 q = 0
                 for part in r.query.split("&"):
@@ -275,6 +275,7 @@ def run_one(desc: dict, controller: "Recorder | None" = None) -> dict:
     phase_names = {"probing": PhaseName.PROBING, "examples": PhaseName.EXAMPLES, "coverage": PhaseName.COVERAGE, "fuzzing": PhaseName.FUZZING,
                    "stateful": PhaseName.STATEFUL_TESTING}
     ctx = ExecutionContext()
+    delivered_failures: list = []
     fatal = ""
     t0 = time.time()
     with LoopbackServer(behaviour) as server:
@@ -350,6 +351,8 @@ def run_one(desc: dict, controller: "Recorder | None" = None) -> dict:
                                 for chk in checks:
                                     if chk.status.value == "failure":
                                         nfail += 1
+                                        if chk.failure_info is not None and chk.failure_info.failure not in delivered_failures:
+                                            delivered_failures.append(chk.failure_info.failure)
                                         inter = ev.recorder.interactions.get(case_id)
                                         if case_id not in ev.recorder.cases or inter is None or inter.request is None \
                                                 or chk.failure_info is None or not chk.failure_info.code_sample:
@@ -376,13 +379,16 @@ def run_one(desc: dict, controller: "Recorder | None" = None) -> dict:
             if profile_before is not None:
                 hypothesis.settings.register_profile("verif-restore", profile_before)
                 hypothesis.settings.load_profile("verif-restore")
-    rec.emit({"e": "X", "code": int(ctx.exit_code)})
+    # every distinct failure delivered with a ScenarioFinished must still be in the CLI's statistic at the end of the run
+    recorded = [f for groups in ctx.statistic.failures.values() for g in groups.values() for f in g.failures]
+    statlost = sum(1 for f in delivered_failures if f not in recorded)
+    rec.emit({"e": "X", "code": int(ctx.exit_code), "statlost": statlost, "nfail": len(delivered_failures)})
     # normalise: every line carries every field the trace spec may read (TLC records are strict)
     lines = []
     for ln in rec.lines:
         full = {"e": "", "k": "", "ph": 0, "su": 0, "sc": 0, "op": 0, "st": "", "skip": "", "en": True, "bad": False, "dg": 0,
                 "thr": 0, "nfail": 0, "reqok": True, "code": 0, "site": "", "exc": "", "stop": False, "fails": 0, "limit": False,
-                "rel": True, "err": "", "case": 0, "ctxerr": "", "t": 0, "role": "", "tok": ""}
+                "rel": True, "err": "", "case": 0, "ctxerr": "", "t": 0, "role": "", "tok": "", "statlost": 0}
         full.update(ln)
         lines.append(full)
     hdr = {"nops": nops + extra_ops, "unitops": nops, "workers": desc.get("workers", 1), "maxfail": desc.get("max_failures", 0) or 0,
@@ -477,7 +483,7 @@ def run_cli(desc: dict) -> dict:
     for ln in lines:
         full = {"e": "", "k": "", "ph": 0, "su": 0, "sc": 0, "op": 0, "st": "", "skip": "", "en": True, "bad": False, "dg": 0,
                 "thr": 0, "nfail": 0, "reqok": True, "code": 0, "site": "", "exc": "", "stop": False, "fails": 0, "limit": False,
-                "rel": True, "err": "", "case": 0, "ctxerr": "", "t": 0, "role": "", "tok": ""}
+                "rel": True, "err": "", "case": 0, "ctxerr": "", "t": 0, "role": "", "tok": "", "statlost": 0}
         full.update(ln)
         full_lines.append(full)
     hdr = {"nops": nops, "unitops": nops, "workers": desc.get("workers", 1), "maxfail": desc.get("max_failures", 0) or 0,
